@@ -72,4 +72,8 @@ def check(ctx: Ctx) -> str:
     from . import c09
 
     ctx.run_imported("C09", {"R3"}, c09.check)
+    # no coroutine is left un-awaited by a lookup or call (rule owned by C09)
+    from .c09 import async_awaits_rule
+
+    async_awaits_rule(ctx, "R5")
     return __doc__ or ""
